@@ -101,6 +101,8 @@ def judge(rep, obs_paths, cases, label, par):
             if v["nexpected"] > 0 and v["onetoone"]:
                 stats["obs_with_expected_outputs_all_present"] += 1
             stats["expected_outputs"] += v["nexpected"]
+            stats["faulty_files"] += v["nfaulty"]
+            stats["weakly_reported"] += v["nweak"]
             for cl in CLAUSES:
                 if v[cl]:
                     continue
@@ -190,6 +192,8 @@ def run(tier):
         "coverage_by_dimension": {k: v for k, v in sorted(cov.items()) if not k.startswith("kind:") and not k.startswith("faulty_files:")},
         "expected_outputs_checked": stats["expected_outputs"],
         "observations_with_faulty_files_all_reported": stats["obs_with_faulty_all_reported"],
+        "faulty_files_checked": stats["faulty_files"],
+        "information_write_errors_naming_only_the_blocking_path_not_the_file": stats["weakly_reported"],
         "failing_clauses": {k[5:]: v for k, v in stats.items() if k.startswith("fail:")},
         "model_theorems_checked_on_every_case": ["DestInjective", "DestInsideOutput", "DestOutsideInput", "InPlaceIsSource", "MirrorIsOneToOne",
                                                  "NoConflict", "DestStable", "RefIsClean", "Partition"],
